@@ -62,7 +62,7 @@ def run(res):
 
 def _run(res, work):
     pending = []   # (kind, broken, detail) that still need a failing input
-    ok, tlog = common.regen_tables()
+    ok, tlog = common.regen_tables("C17")
     if not ok:
         pending.append(("translator", "translator could not re-extract a C17 table (deps.rs escape chain / env read inventory): " + tlog, tlog))
     lean = common.lean_obligations(PROP, res.tier)
